@@ -50,6 +50,13 @@ class C11(Check):
         "handler_dropping_origin_counterexample", "handled_next_notification_counterexample",
         "replay_only_entitled_partial", "replay_deleted_not_sent", "replay_meets_spec_partial",
         "replay_global_counterexample", "replay_no_object_counterexample",
+        # log positions: live routing, then the replay after a reconnect
+        "skipped_or_sent", "served_not_replayed", "missed_is_replayed", "log_run_meets_spec",
+        "report_without_guard_counterexample",
+        # the two members of a zone together
+        "confirmed_not_replayed", "pair_connected_no_replay_partial", "pair_double_replay_counterexample", "pair_live_one_sender",
+        # SyncSendMessage's newest-connection rule
+        "sync_send_one_copy", "sync_send_syncing_nothing", "sync_send_equal_stamps_counterexample",
     ]
     technique = ("Lean 4 proof (decision logic stated outright for the per-node relay function over ALL topologies; invariant by "
                  "induction over deliveries for the cluster-wide statements incl. the general no-duplicate / finiteness / completeness theorems; "
@@ -89,17 +96,36 @@ class C11(Check):
                   "ordinary zone, present or deleted meanwhile, is replayed only to endpoints of the object's zone and the zones above it, for "
                   "every zone graph) and counterexamples for objects of global zones (replayed upwards, F-C11a) and records without security "
                   "object (replayed downwards, F-C11b). "
+                  "LOG POSITIONS ACROSS A RECONNECT (`logRun`: SetLogPositionHandler, the log-position update of RelayMessageOne for the "
+                  "endpoints it deliberately skips, PersistMessage's decision, ReplayLog's timestamp and visibility tests): `skipped_or_sent` "
+                  "(every connected endpoint of an entitled directly related zone is handed the event or has its position advanced to the "
+                  "event's ts), `served_not_replayed` (such an endpoint is never handed the event by a later replay - for ALL sequences of "
+                  "positions it reports before and after), `missed_is_replayed` (an endpoint whose whole zone was unreachable and that has not "
+                  "confirmed the event gets exactly one copy when it connects), `confirmed_not_replayed`, and the whole-scenario theorem "
+                  "`log_run_meets_spec` (the executable `specLog` holds on the model for every topology, origin, object zone, iteration order, "
+                  "target and reported positions); `report_without_guard_counterexample` shows the monotonicity test of SetLogPositionHandler is "
+                  "necessary. THE TWO MEMBERS OF A ZONE TOGETHER (`pairRun`: originator, one delivery to its peer, both replay to an endpoint "
+                  "that reconnects): `pair_connected_no_replay_partial` (reachable from both: neither replays) and the kernel-checked "
+                  "`pair_double_replay_counterexample` for the unchanged code's double delivery (F-C11d), `pair_live_one_sender` (two members with the same "
+                  "view of their zone never both hand an event to an endpoint of a foreign zone). SyncSendMessage's newest-connection "
+                  "rule as a function of the connections' timestamps: `sync_send_one_copy` (pairwise different timestamps: exactly one copy, on "
+                  "the newest), `sync_send_syncing_nothing`, `sync_send_equal_stamps_counterexample`. "
                   "The transcription is tied to the code by differential execution of the real ApiListener::RelayMessage, of the real "
                   "JsonRpcConnection::MessageHandler + every re-relaying handler of clusterevents.cpp on real Host/Service/Notification/Comment/"
-                  "Downtime objects, and of the real ApiListener::ReplayLog.")
+                  "Downtime objects, and of the real ApiListener::ReplayLog; the log-position scenarios (L lines) and the two-node scenarios (Q lines) run the real "
+                  "SetLogPositionHandler through JsonRpcConnection::MessageHandler, the real relay, a real reconnect (RemoveClient / AddClient) and "
+                  "the real ReplayLog, and `specLog` / `specPair` are evaluated on what the implementation did.")
     level_note = ("Trusted: Lean kernel (+ propext, Classical.choice, Quot.sound), the sampled/enumerated correspondence, harness/driver. "
-                  "Not modelled: connectivity changing while an event is in flight (C12), TCP/TLS; `syncing` is modelled per node (nothing is "
+                  "Not modelled: connectivity changing while an event is in flight other than ONE endpoint reconnecting after the event was routed (L / Q lines, `logRun`, `pairRun`), TCP/TLS; `syncing` is modelled per node (nothing is "
                   "queued for a syncing endpoint; GetMaster and RelayMessageOne ignore the flag) but not in the network model (Q-C12b), the "
                   "`ts`-based discard of old messages in MessageHandler (C12). The cluster-wide theorems are about the network MODEL (composition "
-                  "of the per-node function that the correspondence ties to the code). Known findings of the unchanged tree, each with a narrow "
+                  "of the per-node function that the correspondence ties to the code); the composition itself is tied to the code by the N lines (whole "
+                  "propagations on the real code, `specNet` / `specComplete` evaluated on the implementation's own history). Known findings of the unchanged tree, each with a narrow "
                   "classifier, a kernel-checked counterexample and the full statement kept as `..._partial`: F-C11a (ReplayLog replays events "
                   "about global-zone objects to any connecting endpoint), F-C11b (records without security object are replayed to child zones), "
-                  "F-C11c (event::SetNextNotification is processed and never relayed: dead signal). Robustness: 8 behaviour-preserving rewrites of the anchored "
+                  "F-C11c (event::SetNextNotification is processed and never relayed: dead signal), F-C11d (a zone member that cannot reach a child / "
+                  "parent zone logs the event although its peer serves that zone and replays it when the endpoint connects: the endpoint is handed the "
+                  "event twice by the two members). Robustness: 8 behaviour-preserving rewrites of the anchored "
                   "code (NEGATIVE_CONTROLS in checks/c11.py, patches in corpus/C11/negative_controls) pass silently; hypotheses: global zones have no parent, forest depth "
                   "within the IsChildOf walk (<= 33), every zone with a parent is a registered Zone object.")
     trusted_base = [
@@ -114,13 +140,24 @@ class C11(Check):
         "acceptance by the real Zone::CanAccessObject, re-relay with that origin) is tied to the code by the D-line correspondence, "
         "with a harness-registered ApiFunction standing for the cluster event handlers' glue, AND by the E-line correspondence through "
         "each of the 18 real re-relaying handlers (whether the node processed the event - object state changed or a notification signal "
-        "fired - is read from the implementation: the handlers' guards are C13's subject); a multi-process run "
-        "of whole propagations is not performed - the composition is covered by the theorems",
+        "fired - is read from the implementation: the handlers' guards are C13's subject); WHOLE PROPAGATIONS are run on the real code in "
+        "one process (N lines: the identity is switched to each recipient in turn, its row of the connectivity matrix installed, every copy "
+        "found on a queue handed to the real MessageHandler of the sender's connection), compared with `start` / `deliver` along the same "
+        "schedule, and `specNet` / `specComplete` are evaluated on the implementation's own history; the nodes share the process' zone and "
+        "endpoint registries (every node knows the whole forest) and real sockets / concurrency are not involved",
         "events a node generates ITSELF while processing a received one (other method names: e.g. event::UpdateExecutions from "
         "event::ExecutedCommand, event::SendNotifications from a state change) are new local events and only counted (x=); "
         "event::ExecuteCommand / ExecutedCommand (command forwarding and its replies, C13) are not driven",
-        "the replay path is covered for the entitlement sentence only (what ReplayLog puts on the wire for the connecting endpoint, one "
-        "persisted local event per case, object present / deleted / never named); order, completeness and positions of the replay are C12",
+        "the replay path is covered for the entitlement sentence (P lines: one persisted local event per case, object present / deleted / "
+        "never named) and for 'not twice / not dropped' across ONE reconnect of ONE endpoint after ONE event (L, Q lines: positions reported "
+        "through the real SetLogPositionHandler; the reconnecting endpoint itself - its remote_log_position filter - is not run: a copy "
+        "put on its new connection counts as processed, which is what the per-sender filter of MessageHandler does with it); order, "
+        "completeness over several events, log rotation and the state file are C12",
+        "in the two-node scenarios (Q lines) the second node's part is run after the first one's in the same process (identity switched, "
+        "log emptied, positions reset): the two nodes interact through the one message only; an endpoint that received the event live "
+        "confirms it with the event's ts before it reconnects",
+        "SyncSendMessage's choice among several connections is modelled on their creation timestamps (`syncSend`); the harness attaches at "
+        "most two connections per endpoint, created at different virtual times",
         "gen/c11_handlers.py is a syntactic reading of clusterevents.cpp (calls that receive the MessageOrigin parameter, RelayMessage "
         "arguments); it complements the dynamic E lines and is not a proof about the C++",
     ]
@@ -191,8 +228,18 @@ class C11(Check):
         if bad:
             res.corr_failures.append(runner.Finding("corr", "protocol", bad[:5], {"origin": origin}))
         seen = {}
-        for l in lines:
-            if l.startswith("SPECFAIL"):
+
+        def known_looking(l):
+            # failures of `pair_one_copy` that have the shape of F-C11d are looked at AFTER all others, so that the cap below never
+            # hides a different violation of the same clause behind known ones
+            try:
+                src = all_lines[int(core.parse_kv(l)["line"]) - 1]
+            except (KeyError, ValueError, IndexError):
+                return False
+            return src.startswith("Q ") and self._pair_known_shape(src)
+        specfails = [l for l in lines if l.startswith("SPECFAIL")]
+        for l in [x for x in specfails if not known_looking(x)] + [x for x in specfails if known_looking(x)]:
+            if True:
                 kv = core.parse_kv(l)
                 cl = kv.get("clause", "?")
                 seen[cl] = seen.get(cl, 0) + 1
@@ -307,20 +354,35 @@ class C11(Check):
                     "included) is read and `specCase` is evaluated with the origin the wire message defines; and REPLAY STEPS (P lines): every "
                     "object zone x {Zone object, User of that zone present, User deleted before the replay, no security object} x every other "
                     "endpoint as the one that connects: local event relayed with nobody connected, real ApiListener::ReplayLog for the "
-                    "connecting endpoint, `specReplay` on what it got. The handler table extracted from clusterevents.cpp (H lines) is compared "
+                    "connecting endpoint, `specReplay` on what it got; LOG-POSITION STEPS (L lines): every directly related endpoint (and a quarter of the "
+                    "others) as the one that reconnects x every object zone incl. none x 4 (thorough 12) seeded scenarios {it was connected / not} x "
+                    "seeded connectivity of the rest (each related endpoint missing with probability 0.4) x origin (none, or a connected sender with "
+                    "the FromZone MessageHandler computes) x sequences of positions reported before {none, older} and after {none, older, the "
+                    "event's ts, newer, newer-then-older, ...} the event through the real log::SetLogPosition handler, then RemoveClient / AddClient "
+                    "and the real ReplayLog: `specLog` on what the endpoint was handed; TWO-NODE STEPS (Q lines): both members of every two-member "
+                    "zone x every endpoint of a parent / child zone x every object zone x {connected to both, one, the other, neither} with seeded "
+                    "rest: local event on the first, the real MessageHandler on the second, confirmation, reconnect and ReplayLog on both: "
+                    "`specPair` on the copies handed over by the two together; REAL PROPAGATIONS (N lines): per topology every originator x every object "
+                    "zone x {everything connected, two seeded symmetric connectivity matrices} with the delivery order rotating over oldest-first / "
+                    "newest-first / seeded: the event travels through the real code node by node until nothing is in flight, the history is compared "
+                    "with the network model along the same schedule and `specNet` (nobody twice, only entitled, nothing discarded, fewer messages "
+                    "than endpoints) and - when the masters' connectivity hypothesis holds - `specComplete` are evaluated on it. The handler table extracted from clusterevents.cpp (H lines) is compared "
                     "with the model's. Then the network model is "
                     "run on every generated topology (all originators x object zones x 12 (thorough 60) seeded symmetric connectivity patterns x 4 delivery orders, every node iterating the endpoint sets in its own order; completeness is checked whenever the pattern meets the property's connectivity hypothesis).")
         es = [l for l in all_lines if l.startswith("E ") and " a=1 " in l and " s=- " not in l]
         ps = [l for l in all_lines if l.startswith("P ") and " r=1 " in l]
+        ls_ = [l for l in all_lines if l.startswith("L ") and " p=1 " in l]
+        qs = [l for l in all_lines if l.startswith("Q ") and " ab=1 " in l]
+        ns = [l for l in all_lines if l.startswith("N ") and l.count(",") > 6]
         ds = [l for l in all_lines if l.startswith("D ")]
         rs = [l for l in all_lines if l.startswith("R ")]
         ts = [l for l in all_lines if l.startswith("T ")]
-        res.samples = [ts[len(ts) // 2]] + rs[len(rs) // 2: len(rs) // 2 + 3] + ["..."] + ds[len(ds) // 2: len(ds) // 2 + 2] + ["..."] + es[len(es) // 2: len(es) // 2 + 2] + ["..."] + ps[len(ps) // 2: len(ps) // 2 + 2] + ["..."] + rs[-2:]
+        res.samples = [ts[len(ts) // 2]] + rs[len(rs) // 2: len(rs) // 2 + 3] + ["..."] + ds[len(ds) // 2: len(ds) // 2 + 2] + ["..."] + es[len(es) // 2: len(es) // 2 + 2] + ["..."] + ps[len(ps) // 2: len(ps) // 2 + 2] + ["..."] + ls_[len(ls_) // 2: len(ls_) // 2 + 2] + ["..."] + qs[len(qs) // 2: len(qs) // 2 + 2] + ["..."] + ns[len(ns) // 2: len(ns) // 2 + 2] + ["..."] + rs[-2:]
         return res
 
     def replay(self, path, harness, driver):
         data = json.load(open(path))
-        lines = [l for l in data.get("case", []) if l[:2] in ("T ", "R ", "D ", "M ", "E ", "P ")]
+        lines = [l for l in data.get("case", []) if l[:2] in ("T ", "R ", "D ", "M ", "E ", "P ", "L ", "Q ", "N ")]
         out, shown = self._replay_lines(harness, driver, lines, "replay")
         print("\n".join(shown))
         print("\n".join(out))
@@ -336,6 +398,23 @@ class C11(Check):
         if len(ts) != 1 or len(cs) != 1:
             return None, None
         return ts[0].split("|")[0].split(), cs[0]
+
+    @staticmethod
+    def _pair_known_shape(qline):
+        """F-C11d on a Q line with its observation: exactly two copies, at most one of them live, each node replays at most once,
+        and every replayed copy comes from a member that did NOT reach the endpoint while the event was routed (a replay to an
+        endpoint that was connected - what a lost / rewound log position produces - is not this finding)."""
+        try:
+            w = qline.split("|")[0].split()            # Q <a> <b> <objzone> <kind> <target> <conn a> <conn b>
+            kv = core.parse_kv("Q " + qline.split("|")[1])
+            target = int(w[5])
+            lst = lambda v: [] if v == "-" else [int(x) for x in v.split(",")]
+            la, lb = lst(kv["sa"]).count(target), lst(kv["sb"]).count(target)
+            ra, rb = int(kv["ra"]), int(kv["rb"])
+            return (la + lb <= 1 and ra <= 1 and rb <= 1 and la + lb + ra + rb == 2 and ra + rb >= 1
+                    and (ra == 0 or w[6][target] == "0") and (rb == 0 or w[7][target] == "0") and kv.get("x") == "0")
+        except (ValueError, IndexError, KeyError):
+            return False
 
     def matches_known(self, entry, finding):
         if finding.kind != "spec":
@@ -370,6 +449,14 @@ class C11(Check):
                     return False
                 w = c.split("|")[0].split()            # E <conn> <from> <originzone> <objzone> <method> <var>
                 return w[5] == "SetNextNotification" and " a=1 " in c and " s=- " in c and " p=0 " in c
+            if cl == "c11_pair_member_logs_for_zone_its_peer_serves":
+                if what != "spec:C11:pair_one_copy":
+                    return False
+                t, c = self._witness(finding, "Q")
+                if t is None:
+                    return False
+                w = c.split("|")[0].split()            # Q <a> <b> <objzone> <kind> <target> <conn a> <conn b>
+                return self._pair_known_shape(c)
         except (ValueError, IndexError):
             return False
         return False
